@@ -39,8 +39,11 @@ CALLS = [
     ["echo(k.m1({mA}));", "echo(f({mA}));", "echo(k.m1({mB}));"],
     ["{mB} = f({mA});", "echo(k.m1({mB}));", "echo(K.s({mA}));"],
     ["echo(k.m2());", "{mA} = k.m2();", "echo(j.m1({mA}));"],
+    # first use of the lazily instantiated generic inside a function / inside main
+    ["echo(open({mA}));", "echo(open({mB}));"],
+    ["L<int> early = new L<int>({mB});", "echo(early.both());", "echo(open({mA}));"],
 ]
-SLOTS = ["F1", "F2", "aP", "bL", "fP", "fL", "gP", "cP", "mA", "mB"]
+SLOTS = ["F1", "F2", "aP", "bL", "fP", "fL", "gP", "cP", "mA", "mB", "S1", "S2", "oP", "oL"]
 
 
 def render(names, m1, m2, fb, calls):
@@ -54,6 +57,15 @@ def render(names, m1, m2, fb, calls):
     public function m2() -> int {{ %s }}
     public static function s(int {aP}) -> int {{ return {aP} + 100; }}
 }}
+class L<T> {{
+    public static int {S1} = 10;
+    public static int {S2} = {S1} + 1;
+    public T item;
+    public constructor(T v) -> L<T> {{ this.item = v; }}
+    public function peek() -> int {{ return {S2}; }}
+    public function both() -> int {{ return {S1} * 100 + {S2}; }}
+}}
+function open(int {oP}) -> int {{ int {oL} = {oP} + 1; L<int> l = new L<int>({oL}); return l.peek() + l.both(); }}
 function g(int {gP}) -> int {{ return {gP} + 1000; }}
 function f(int {fP}) -> int {{ %s }}
 function main() -> void {{
@@ -74,7 +86,7 @@ function main() -> void {{
 
 def valid(names, m1, m2):
     n = names
-    if n["F1"] == n["F2"] or n["fP"] == n["fL"] or n["mA"] == n["mB"]:
+    if n["F1"] == n["F2"] or n["fP"] == n["fL"] or n["mA"] == n["mB"] or n["S1"] == n["S2"] or n["oP"] == n["oL"]:
         return False
     # a local/parameter may not capture a field the same body names barely
     for fld in m1[1]:
@@ -87,7 +99,7 @@ def valid(names, m1, m2):
     return True
 
 
-UNIQUE = {"F1": "fieldOne", "F2": "fieldTwo", "aP": "argM", "bL": "locM", "fP": "argF", "fL": "locF", "gP": "argG", "cP": "argC", "mA": "mainA", "mB": "mainB"}
+UNIQUE = {"S1": "statOne", "S2": "statTwo", "oP": "argO", "oL": "locO", "F1": "fieldOne", "F2": "fieldTwo", "aP": "argM", "bL": "locM", "fP": "argF", "fL": "locF", "gP": "argG", "cP": "argC", "mA": "mainA", "mB": "mainB"}
 
 
 def namings(tier):
@@ -100,6 +112,13 @@ def namings(tier):
         n = dict(zip(free, combo))
         n.setdefault("gP", n["mA"])
         n.setdefault("cP", n["F1"])
+        n.update({"S1": "statOne", "S2": "statTwo", "oP": "argO", "oL": "locO"})
+        yield n
+    # family B: the generic class's statics and the opener's parameter/local range over the pool, everything else unique
+    for combo in itertools.product(POOL, repeat=6):
+        n = dict(UNIQUE)
+        n.update(dict(zip(["S1", "S2", "oP", "oL", "mA", "mB"], combo)))
+        n["familyB"] = True
         yield n
 
 
@@ -133,13 +152,15 @@ def main(tier):
     combos = list(itertools.product(range(len(M1_BODIES)), range(len(M2_BODIES)), range(len(F_BODIES)), range(len(CALLS))))
     if tier != "thorough":
         combos = [c for i, c in enumerate(combos) if i % 7 == 0 or c[3] >= 4]
+    # family B namings only matter for the call sequences that open the generic
+
     allnames = list(namings(tier))
     items = []
     total = 0
     for c in combos:
-        nl = [n for n in allnames if valid(n, M1_BODIES[c[0]], M2_BODIES[c[1]])]
+        nl = [n for n in allnames if valid(n, M1_BODIES[c[0]], M2_BODIES[c[1]]) and (not n.get("familyB") or c[3] >= 7)]
         if tier != "thorough":
-            nl = nl[:: 6]
+            nl = [n for i, n in enumerate(nl) if n.get("familyB") or i % 6 == 0]
         # split large groups so that workers stay busy
         for i in range(0, len(nl), 250):
             items.append((c, nl[i:i + 250]))
@@ -161,8 +182,8 @@ def main(tier):
                 collide = sorted(k for k in ("aP", "bL", "fP", "fL", "mA", "mB") if isinstance(names, dict) and names.get(k) in (names.get("F1"), names.get("F2")))
                 ck.violation("variant:%s:%s" % (combo, ",".join(collide) if isinstance(names, dict) else names), "%s\nprogram:\n%s" % (p, src),
                              {"tool": "vdrv", "job": {"kind": "run", "opts": {"gc": "own", "warn": 0}, "blobs": {"src": src}}})
-    ck.sample({"unique": render(UNIQUE, M1_BODIES[0], M2_BODIES[0], F_BODIES[0], CALLS[4])})
-    ck.sample({"colliding": render({"F1": "x", "F2": "y", "aP": "n", "bL": "n", "fP": "x", "fL": "y", "gP": "x", "cP": "x", "mA": "x", "mB": "y"}, M1_BODIES[0], M2_BODIES[0], F_BODIES[0], CALLS[4])})
+    ck.sample({"unique": render(UNIQUE, M1_BODIES[0], M2_BODIES[0], F_BODIES[0], CALLS[7])})
+    ck.sample({"colliding": render({"S1": "x", "S2": "y", "oP": "x", "oL": "n", "F1": "x", "F2": "y", "aP": "n", "bL": "n", "fP": "x", "fL": "y", "gP": "x", "cP": "x", "mA": "x", "mB": "y"}, M1_BODIES[0], M2_BODIES[0], F_BODIES[0], CALLS[4])})
     ck.assumptions += ["a naming is an alpha-variant iff within each body no local/parameter carries the name of a field that body refers to barely (then the bare name would lexically mean the local)",
                        "main's object variables k and j keep fixed names outside the pool"]
     ck.finish({"evaluations": nruns, "distinct_nontrivial": len(outs), "rule": "all capture-free assignments of pool names {x,y,n} to the name slots x body/call combinations; distinct = distinct (combination, reference output) pairs",
